@@ -73,6 +73,9 @@ def strategy():
             if draw(st.booleans()):
                 tags['NM'] = draw(st.integers(0, 4))
             if draw(st.booleans()):
+                # a float valued tag (all values exact in 32 bit floats): negative, fractional, and one printed in exponent notation
+                tags['xv'] = draw(st.sampled_from([4.0, 2.5, -3.0, -1.5, 0.5, 0.0, 2.0 ** -20]))
+            if draw(st.booleans()):
                 tags['DA'] = draw(st.sampled_from(['a', 'b', 'a,b']))
             if draw(st.booleans()):
                 tags['LY'] = draw(st.sampled_from(['lib1', 'lib2']))
@@ -112,7 +115,7 @@ def strategy():
             o['binTag'] = 'DS'
             o['keepOverBounds'] = draw(st.booleans())
         if mode == 'byvalue':
-            o['byValue'] = draw(st.sampled_from(['RC', 'NM', 'NH']))
+            o['byValue'] = draw(st.sampled_from(['RC', 'NM', 'NH', 'xv', 'xv']))
             if feats == [o['byValue']]:
                 # a table whose only feature is the value tag itself has no feature dimension left: not a sensible request
                 o['joinedFeatureTags'] = 'chrom,' + o['byValue']
